@@ -19,6 +19,7 @@ pub struct LegacyTransaction {
     pub gas: U256,
     /// The target address for the transaction. This can also be `None` to
     /// indicate a contract creation transaction.
+    #[serde(default, with = "serialization::addressopt")]
     pub to: Option<Address>,
     /// The amount of Ether to send with the transaction.
     #[serde(with = "serialization::uint")]
